@@ -110,6 +110,9 @@ class Kernel:
         self.preempt_hook = None                  # E5: callable(kernel, tcb, code, line)
         self.chooser = None                       # optional callable(list[TCB]) -> TCB
         self.driver_ident = _rt.get_ident()
+        self.time_reads = 0
+        self.time_base = start_time
+        self.last_time = start_time
 
     # ---- installation -----------------------------------------------------
     def install(self):
@@ -1068,8 +1071,22 @@ def _sim_select(rlist, wlist, xlist, timeout=None):
 
 
 def _sim_time():
+    """Virtual wall clock.  Successive readings differ by 10 microseconds so
+    that elapsed times measured by the code under test are never exactly zero
+    (a real clock never returns the same value twice in a row); whole seconds
+    are unaffected."""
     k = _current
-    return k.now if k is not None else _rtime.time()
+    if k is None:
+        return _rtime.time()
+    if k.now != k.time_base:
+        k.time_base = k.now
+        k.time_reads = 0
+    k.time_reads += 1
+    t = k.now + min(k.time_reads, 50_000) * 1e-5
+    if t <= k.last_time:
+        t = k.last_time + 1e-5
+    k.last_time = t
+    return t
 
 
 def _sim_monotonic():
